@@ -40,3 +40,111 @@ Definition check_mcase (k : mcase) : bool :=
   | CoordCase true host port obs => coord_eqb (handle_find_coordinator host port) obs
   | CoordCase false host port obs => coord_eqb not_ready_coordinator obs
   end.
+
+(* ------------------------------------------------------------------ *)
+(* Part B (C27): a case is one produce / fetch request driven through the real
+   handleProduceRouting / handleFetchRouting: static tables, routing table, round-robin
+   counter, backends that refuse the dial, the request as parsed, and per backend the
+   sub-requests it received in order with what it answered.  Observed: the decoded merged
+   response, the final routing table.  Go's map iteration order over the groups is not
+   observable: [search] explores every order per attempt (pruning orders whose sends
+   disagree with what the backends saw) and the case passes when some order reproduces
+   all observations. *)
+
+Record pcase := mkPCase {
+  pc_env : env; pc_byid : bool;
+  pc_routes : list route; pc_rr : Z; pc_down : list bytes;
+  pc_req : subreq;
+  pc_script : list (bytes * list (subreq * outcome));
+  pc_merged : list rpart;
+  pc_final_routes : list route }.
+
+Definition topic_eqb (a b : topic) : bool := bytes_eqb (t_name a) (t_name b) && bytes_eqb (t_id a) (t_id b).
+
+(* what is on the wire: the id in id-carrying versions, the name otherwise *)
+Definition wire_t (byid : bool) (t : topic) : topic :=
+  if byid then mkTopic [] (t_id t) else mkTopic (t_name t) zero_id.
+
+Definition sub_eqb (byid : bool) (a b : subreq) : bool :=
+  list_eqb (fun x y : topic * list Z => topic_eqb (wire_t byid (fst x)) (wire_t byid (fst y)) && zs_eqb (snd x) (snd y)) a b.
+
+Definition rpart_eqb (byid : bool) (a b : rpart) : bool :=
+  topic_eqb (wire_t byid (fst (fst a))) (wire_t byid (fst (fst b))) && (snd (fst a) =? snd (fst b)) && (snd a =? snd b).
+
+Definition route_eqb (a b : route) : bool :=
+  bytes_eqb (fst (fst a)) (fst (fst b)) && (snd (fst a) =? snd (fst b)) && bytes_eqb (snd a) (snd b).
+
+(* multiset equality by counting *)
+Definition count_by {A} (eqb : A -> A -> bool) (x : A) (l : list A) : nat := length (filter (eqb x) l).
+Definition multiset_eqb {A} (eqb : A -> A -> bool) (a b : list A) : bool :=
+  Nat.eqb (length a) (length b) && forallb (fun x => Nat.eqb (count_by eqb x a) (count_by eqb x b)) a.
+
+Fixpoint script_of (a : bytes) (scr : list (bytes * list (subreq * outcome))) : list (subreq * outcome) :=
+  match scr with
+  | [] => []
+  | (b, l) :: scr' => if bytes_eqb a b then l else script_of a scr'
+  end.
+
+Definition script_backend (scr : list (bytes * list (subreq * outcome))) : backend_fn :=
+  fun _ a n _ => match nth_error (script_of a scr) (Z.to_nat n) with Some (_, o) => o | None => Unparseable end.
+
+Definition sends_to (a : bytes) (log : list logent) : list subreq :=
+  map l_sub (filter (fun e => bytes_eqb (l_target e) a) log).
+
+Fixpoint prefix_eqb (byid : bool) (a b : list subreq) : bool :=
+  match a, b with
+  | [], _ => true
+  | x :: a', y :: b' => sub_eqb byid x y && prefix_eqb byid a' b'
+  | _, [] => false
+  end.
+
+(* the model's sends to every backend are a prefix of what that backend received *)
+Definition log_prefix_ok (k : pcase) (log : list logent) : bool :=
+  forallb (fun e => mem_bytes (l_target e) (map fst (pc_script k))) log &&
+  forallb (fun bl : bytes * list (subreq * outcome) =>
+             prefix_eqb (pc_byid k) (sends_to (fst bl) log) (map fst (snd bl))) (pc_script k).
+
+Definition log_exact_ok (k : pcase) (log : list logent) : bool :=
+  log_prefix_ok k log &&
+  forallb (fun bl : bytes * list (subreq * outcome) =>
+             Nat.eqb (length (sends_to (fst bl) log)) (length (snd bl))) (pc_script k).
+
+Fixpoint insert_all {A} (x : A) (l : list A) : list (list A) :=
+  match l with
+  | [] => [[x]]
+  | y :: l' => (x :: l) :: map (cons y) (insert_all x l')
+  end.
+Fixpoint perms {A} (l : list A) : list (list A) :=
+  match l with
+  | [] => [[]]
+  | x :: l' => flat_map (insert_all x) (perms l')
+  end.
+
+(* [loop] of the model with the iteration order of every attempt left open *)
+Fixpoint search (k : pcase) (dial : Z -> bytes -> bool) (backend : backend_fn) (req : subreq)
+                (fuel : nat) (a : Z) (s : st) (gs : list group) : list st :=
+  match fuel with
+  | O => [s]
+  | S fuel' =>
+      flat_map (fun o =>
+        let s1 := attempt (pc_env k) dial backend (match fuel' with O => true | _ => false end) a s o in
+        if negb (log_prefix_ok k (s_log s1)) then []
+        else match s_failed s1 with
+             | [] => [s1]
+             | _ => match group_by (pc_env k) (s_routes s1) req (Some (s_failed s1)) with
+                    | [] => [s1]
+                    | gs' => search k dial backend req fuel' (a + 1) s1 gs'
+                    end
+             end) (perms gs)
+  end.
+
+Definition check_pcase (k : pcase) : bool :=
+  let E := pc_env k in
+  let dial := fun (_ : Z) (a : bytes) => negb (mem_bytes a (pc_down k)) in
+  let backend := script_backend (pc_script k) in
+  let req := resolve_req E (pc_req k) in
+  existsb (fun s =>
+     log_exact_ok k (s_log s) &&
+     multiset_eqb (rpart_eqb (pc_byid k)) (merged_ents (tail E req s)) (pc_merged k) &&
+     multiset_eqb route_eqb (s_routes s) (pc_final_routes k))
+   (search k dial backend req 3 0 (init_st (pc_routes k) (pc_rr k)) (group_by E (pc_routes k) req None)).
